@@ -54,6 +54,14 @@ class Pair(Generic[K, V]):
     def val(self) -> V: ...
 class Swap(Pair[V, K]):
     def first_of_swap(self) -> K: ...
+class Node:
+    # self-referential model: quoted forward references, also nested inside generic annotations
+    def parent(self) -> "Node": ...
+    def children(self) -> Iterable["Node"]: ...
+    def kids(self) -> MyIter["Node"]: ...
+    def link(self) -> Pair["Node", float]: ...
+    def weight(self) -> float: ...
+    def depth(self) -> int: ...
 class Base:
     def base_pt(self) -> float: ...
     def base_n(self) -> int: ...
@@ -97,6 +105,8 @@ class Event(Base):
     def ibox(self) -> IntBox: ...
     def lead(self) -> Jet: ...
     def nested(self) -> Iterable[Iterable[Trk]]: ...
+    def tree(self) -> Node: ...
+    def forest(self) -> Iterable["Node"]: ...
 '''
 
 # ---- the harness's own type machinery (independent of func_adl.util_types) ------------------
@@ -144,11 +154,9 @@ def method_ret(t, name):
     origin = typing.get_origin(t) or t
     if isinstance(origin, type) and name in origin.__dict__:
         f = origin.__dict__[name]
-        ann = f.__annotations__.get("return", "<none>")
-        if ann == "<none>":
+        if "return" not in f.__annotations__:
             return Any
-        if isinstance(ann, str):
-            ann = eval(ann, NS)
+        ann = typing.get_type_hints(f, globalns=NS)["return"]  # resolves quoted / nested forward references
         params = getattr(origin, "__parameters__", ())
         return _subst(ann, dict(zip(params, typing.get_args(t))))
     for b in bases_of(t):
